@@ -404,10 +404,12 @@ func (t *tables) updateAccountsMetadata(now libtime.Time, m map[string]metadata.
 	}
 }
 
-// deleteAccountMetadata: `UPDATE accounts SET metadata = metadata - key WHERE address`.
-func (t *tables) deleteAccountMetadata(address, key string) {
+// deleteAccountMetadata: `UPDATE accounts SET metadata = metadata - key,
+// updated_at = transaction_date() WHERE address` (no row, no error).
+func (t *tables) deleteAccountMetadata(now libtime.Time, address, key string) {
 	if a, ok := t.Accounts[address]; ok {
 		delete(a.Metadata, key)
+		a.UpdatedAt = now
 	}
 }
 
